@@ -214,6 +214,10 @@ func init() {
 		for di, d := range pool {
 			d = exact(d)
 			direct, dp, derr := rjson.ReadValue(d)
+			// is the head of the input syntactically invalid (and not merely a number out of range)? The validating skipper with a
+			// Buffer of its own is the reference here; C02 ties it to the specification
+			_, verr := rjson.SkipValue(d, &rjson.Buffer{})
+			syntaxErr := verr != nil
 			for trial := 0; trial < 6; trial++ {
 				cm := &composer{r: rand.New(rand.NewSource(c.Seed*1000003 + int64(di)*7 + int64(trial))), mode: 1}
 				if trial == 0 || trial == 4 {
@@ -254,10 +258,14 @@ func init() {
 					}
 				} else if cm.mode == 0 && !cm.walk && err == nil {
 					s.Violation(line, fmt.Sprintf("ok offset %d", p), "error (direct decoding fails: "+derr.Error()+")", "compose", "all-reading validating decoder accepts an input on which direct decoding fails")
+				} else if !cm.fastUsed && !cm.walk && err == nil && syntaxErr {
+					// a strategy mix without the non-validating SkipValueFast consists of validating parts only (typed readers,
+					// ReadValue, SkipValue with and without a Buffer, traversals whose declined members the machine itself skips)
+					s.Violation(line, fmt.Sprintf("ok offset %d", p), "error (direct decoding fails: "+derr.Error()+")", "compose", "a decoder built from validating parts only accepts a syntactically invalid input")
 				}
 			}
 		}
-		return "decoders written against the public API only (manual token walks with NextToken and the typed readers incl. the integer readers, readers given leading whitespace, NextTokenType, SkipValue, SkipValueFast, ReadValue, nested HandleArrayValues/HandleObjectValues with and without a shared Buffer, declining handlers), 2 all-reading + 4 random strategy mixes per document, on generated, followed, mutated and string-corner-case documents; final offset and reconstructed tree compared with direct ReadValue; the all-reading validating decoder must fail wherever direct decoding fails", nil
+		return "decoders written against the public API only (manual token walks with NextToken and the typed readers incl. the integer readers, readers given leading whitespace, NextTokenType, SkipValue, SkipValueFast, ReadValue, nested HandleArrayValues/HandleObjectValues with and without a shared Buffer, declining handlers), 2 all-reading + 4 random strategy mixes per document, on generated, followed, mutated and string-corner-case documents; final offset and reconstructed tree compared with direct ReadValue; the all-reading validating decoder, must fail wherever direct decoding fails; every strategy mix that did not use SkipValueFast must fail on syntactically invalid input", nil
 	}
 }
 
@@ -524,6 +532,47 @@ func families() []family {
 		{name: "F5 deep object/array alternation through ReadValue", gen: func(n int) [][]byte {
 			return [][]byte{[]byte(strings.Repeat(`{"children":[`, n) + "1" + strings.Repeat("]}", n)), nested(n, "[{", "1", true), nested(n, "{[", "1", true)}
 		}, run: readAll},
+		{name: "F6 mixed entry points on one reader: a large object before an object sibling through ReadObject / ReadArray, then n small objects through ReadValue", gen: func(n int) [][]byte {
+			docs := [][]byte{[]byte(`{"a":` + objN(n, "k") + `,"b":{"x":1}}`), []byte("[" + objN(n, "k") + `,{"x":1}]`)}
+			for i := 0; i < n; i++ {
+				docs = append(docs, []byte(`{"a":1}`))
+			}
+			return docs
+		}, run: func(docs [][]byte) {
+			var r rjson.ValueReader
+			r.ReadObject(docs[0])
+			r.ReadArray(docs[1])
+			for _, d := range docs[2:] {
+				r.ReadValue(d)
+			}
+		}},
+		{name: "F6r mixed entry points on one reader: a large document through ReadValue, then n small ones alternating ReadObject / ReadArray / ReadValue", gen: func(n int) [][]byte {
+			docs := [][]byte{[]byte(`[` + objN(n, "k") + `,` + arrN(n) + `,{"x":[1]}]`)}
+			for i := 0; i < n; i++ {
+				switch i % 3 {
+				case 0:
+					docs = append(docs, []byte(`{"a":{"b":1}}`))
+				case 1:
+					docs = append(docs, []byte(`[[1],{"c":2}]`))
+				default:
+					docs = append(docs, []byte(`{"d":[{"e":3}]}`))
+				}
+			}
+			return docs
+		}, run: func(docs [][]byte) {
+			var r rjson.ValueReader
+			r.ReadValue(docs[0])
+			for i, d := range docs[1:] {
+				switch i % 3 {
+				case 0:
+					r.ReadObject(d)
+				case 1:
+					r.ReadArray(d)
+				default:
+					r.ReadValue(d)
+				}
+			}
+		}},
 		{name: "deep arrays through ReadValue", gen: func(n int) [][]byte { return one(string(nested(n, "[", "1", true))) }, run: readAll},
 		{name: "wide flat array through ReadValue", gen: func(n int) [][]byte { return one(arrN(n * 4)) }, run: readAll},
 		{name: "many strings with escapes in one array", gen: func(n int) [][]byte { return one("[" + strings.Repeat(`"a\nbéc",`, n) + `""]`) }, run: readAll},
